@@ -3,6 +3,7 @@ package main
 import (
 	"fmt"
 	"go/token"
+	"go/types"
 	"sort"
 	"strings"
 
@@ -38,6 +39,67 @@ func checkC09(c *Ctx) {
 		{Owner: "lib.DecoyRegistration", Field: "regCount", Mutex: "lib.RegisteredDecoys.m", Foreign: true},
 		{Owner: "lib.DecoyTimeout", Field: "status", Mutex: "lib.RegisteredDecoys.m", Foreign: true},
 	}, nil)
+
+	// ---- C09.6 no re-entrant acquisition of the registration lock (sync.RWMutex: a second RLock behind a waiting
+	// writer never returns) - directly or through a callee that takes it
+	r.Rule("C09.6", "RegisteredDecoys.m is never acquired while it may already be held (directly or through a callee)", 10)
+	checkNoReentrancy(r, "C09.6", c.funcsOfPkgs("pkg/station/lib"), func(p string) bool {
+		return strings.HasSuffix(p, "registeredDecoys.m") || strings.HasSuffix(p, "r.m") || p == "@lib.RegisteredDecoys.m" || strings.HasSuffix(p, ".m")
+	})
+
+	// ---- C09.7 guarded containers do not leave the lock: no function returns a guarded map (or an inner map of it)
+	r.Rule("C09.7", "no function hands out a guarded tracking map itself (only copies built under the lock)", 1)
+	nRet := 0
+	for _, f := range c.funcsOfPkgs("pkg/station/lib") {
+		eachInstr(f, func(in ssa.Instruction) {
+			ret, ok := in.(*ssa.Return)
+			if !ok || in.Block().Comment == "recover" {
+				return
+			}
+			for i := range ret.Results {
+				rv := returnedValue(ret, i, nil)
+				if _, isMap := rv.Type().Underlying().(*types.Map); !isMap {
+					continue
+				}
+				// walk through phis
+				var leaves []ssa.Value
+				var walk func(v ssa.Value, d int)
+				seen := map[ssa.Value]bool{}
+				walk = func(v ssa.Value, d int) {
+					if d > 6 || seen[v] {
+						return
+					}
+					seen[v] = true
+					if ph, ok := v.(*ssa.Phi); ok {
+						for _, e := range ph.Edges {
+							walk(e, d+1)
+						}
+						return
+					}
+					leaves = append(leaves, v)
+				}
+				walk(rv, 0)
+				for _, lv := range leaves {
+					vp := pathOf(lv)
+					guardedMap := false
+					for _, fld := range []string{".decoys", ".decoysTimeouts"} {
+						if strings.HasSuffix(vp, fld) || strings.Contains(vp, fld+"[") {
+							guardedMap = true
+						}
+					}
+					if _, fresh := lv.(*ssa.MakeMap); fresh || !guardedMap {
+						continue
+					}
+					nRet++
+					r.Bad("C09.7", fnName(f)+": returns the guarded map "+firstN(vp, 50), ret.Pos(), fnName(f),
+						"the function returns "+firstN(vp, 60)+" itself: the caller reads (ranges over) it after the lock has been released while workers and the sweeper write it - unsynchronised access, `concurrent map iteration and map write`, and entries that were never validated become visible to the connection handler")
+				}
+			}
+		})
+	}
+	if nRet == 0 {
+		r.OK("C09.7", "no guarded tracking map is returned by any function of the station library", token.NoPos, "every map-typed return is a fresh map or unrelated to decoys / decoysTimeouts")
+	}
 
 	// ---- C09.1b transports map: written only before the goroutines start
 	r.Rule("C09.1b", "RegisteredDecoys.transports is written only by AddTransport (under the lock) and the constructor; main registers transports before starting the pipeline", 2)
